@@ -42,7 +42,7 @@ package gzip
 
 //@ func (*Writer).Write
 //@   requires gzBase(z)
-//@   modifies *z, **z.compressor, extWrites
+//@   modifies *z, **z.compressor, extWrites, lastCrc
 //@   ensures[C16 inv] gzBase(z) && same(z.closed) && (old(gzOK(z)) ==> gzOK(z))
 //@   ensures[C14 C16 sticky-in] old(z.err) != nil ==> result0 == 0 && result1 == old(z.err) && extWrites == old(extWrites) && same(z.err)
 //@   ensures[C14 sticky-out] result1 != nil ==> z.err == result1
@@ -53,7 +53,7 @@ package gzip
 
 //@ func (*Writer).Flush
 //@   requires gzOK(z)
-//@   modifies *z, **z.compressor, extWrites
+//@   modifies *z, **z.compressor, extWrites, lastCrc
 //@   ensures[C16 inv] gzOK(z)
 //@   ensures[C14 C16 sticky-in] old(z.err) != nil ==> result == old(z.err) && extWrites == old(extWrites) && same(z.err)
 //@   ensures[C14 sticky-out] result != nil ==> z.err == result
@@ -62,7 +62,7 @@ package gzip
 
 //@ func (*Writer).Close
 //@   requires gzOK(z)
-//@   modifies *z, **z.compressor, extWrites
+//@   modifies *z, **z.compressor, extWrites, lastCrc
 //@   ensures[C16 inv] gzOK(z)
 //@   ensures[C14 C16 sticky-in] old(z.err) != nil ==> result == old(z.err) && extWrites == old(extWrites) && same(z.err)
 //@   ensures[C14 sticky-out] result != nil ==> z.err == result
@@ -91,10 +91,33 @@ package gzip
 //@   ensures@3[C15 src-err] err != io.EOF
 //@   loop 1 invariant grBase(z) && z.err == nil && 0 <= n && n <= len(p)
 
-//@ func (*Reader).readHeader
-//@   trusted "not yet verified: gzip header parsing"
+//@ func (*Reader).readString
 //@   requires z.r != nil && brOK(z.r)
-//@   modifies z.buf, z.digest, z.decompressor, **z.decompressor, **z.r, extReads, peekErr, rfErr, rfN, lastCrc
+//@   modifies z.buf, z.digest, *z.r, extReads, lastCrc
+//@   ensures brOK(z.r)
+//@   ensures[C07 C15 no-eof-here] true
+//@   loop 1 invariant 0 <= i && brOK(z.r)
+
+//@ func (*Reader).readHeader
+//@   requires z.r != nil && brOK(z.r) && (typeis(z.decompressor, *github.com/intel/fastgo/compress/flate.decompressor) ==> (z.decompressor.(*github.com/intel/fastgo/compress/flate.decompressor).rBuf != nil ==> brOK(z.decompressor.(*github.com/intel/fastgo/compress/flate.decompressor).rBuf)))
+//@   modifies z.buf, z.digest, z.decompressor, **z.decompressor, **z.r, extReads, peekErr, rfErr, rfN, lastCrc, lastReadN, lastReadErr
 //@   ensures brOK(z.r) && same(z.r)
-//@   ensures err == nil ==> z.decompressor != nil && (typeis(z.decompressor, *github.com/intel/fastgo/compress/flate.decompressor) ==> rdOK(z.decompressor.(*github.com/intel/fastgo/compress/flate.decompressor)))
-//@   ensures err == io.EOF ==> lastCrc == old(lastCrc) && rfN == 0
+//@   ensures[C13] err == nil ==> z.decompressor != nil && (typeis(z.decompressor, *github.com/intel/fastgo/compress/flate.decompressor) ==> rdFresh(z.decompressor.(*github.com/intel/fastgo/compress/flate.decompressor)) && z.decompressor.(*github.com/intel/fastgo/compress/flate.decompressor).rBuf == z.r)
+//@   ensures[C08] err == io.EOF ==> lastCrc == old(lastCrc) && rfN == 0
+//@   ensures@1[C07 C08 C15 first-read] err == rfErr
+//@   ensures[C07 C15 no-eof-inside] err == io.EOF ==> rfN == 0 && rfErr == io.EOF
+//@   ensures[C13] err == nil ==> z.digest == 0
+
+//@ func (*Reader).Reset
+//@   requires typeis(r, *bufio.Reader) ==> brOK(r.(*bufio.Reader))
+//@   requires typeis(z.decompressor, *github.com/intel/fastgo/compress/flate.decompressor) ==> (z.decompressor.(*github.com/intel/fastgo/compress/flate.decompressor).rBuf != nil ==> brOK(z.decompressor.(*github.com/intel/fastgo/compress/flate.decompressor).rBuf))
+//@   modifies *z, **z.decompressor, **r, extReads, peekErr, rfErr, rfN, lastCrc, lastReadN, lastReadErr
+//@   ensures[C13 fresh] result == nil ==> grBase(z) && z.err == nil && z.multistream && z.size == 0 && z.digest == 0
+//@   ensures[C13 C15] z.err == result
+//@   ensures[C05 C08 C13 src] typeis(r, *bufio.Reader) ==> z.r == r.(*bufio.Reader)
+
+//@ func NewReader
+//@   requires typeis(r, *bufio.Reader) ==> brOK(r.(*bufio.Reader))
+//@   modifies **r, extReads, peekErr, rfErr, rfN, lastCrc, lastReadN, lastReadErr
+//@   ensures[C13 fresh] result1 == nil ==> result0 != nil && grBase(result0) && result0.err == nil && result0.multistream && result0.size == 0 && result0.digest == 0
+//@   ensures[C05 C08 src] result1 == nil && typeis(r, *bufio.Reader) ==> result0.r == r.(*bufio.Reader)
